@@ -300,6 +300,29 @@ func TestVerif_C07_History(t *testing.T) {
 					return pmOp{Op: "plant", Key: key, Peer: p, Kind: rapid.SampledFrom([]string{"badtime", "badpeer"}).Draw(t, "plantKind")}
 				}
 			}), 1, 45).Draw(t, "ops")
+			// staggered ages on one key: two providers added at different times, the older one re-added (its age no longer matches
+			// its position in any add-ordered list), then reads in the windows where exactly one of them has expired
+			if verifsim.Chance(t, "stagger", 40) {
+				k := rapid.IntRange(0, 1).Draw(t, "stKey")
+				a := rapid.IntRange(1, 3).Draw(t, "stA")
+				b := 1 + (a+rapid.IntRange(0, 1).Draw(t, "stB"))%3
+				if b == a {
+					b = 1 + a%3
+				}
+				d := func(label string) int { return rapid.SampledFrom([]int{60, 400, 600, 999}).Draw(t, label) }
+				seq := []pmOp{
+					{Op: "add", Key: k, Peer: a, Addr: true}, {Op: "advance", DurS: d("st1")},
+					{Op: "add", Key: k, Peer: b, Addr: true}, {Op: "advance", DurS: d("st2")},
+					{Op: "add", Key: k, Peer: a, Addr: true}, {Op: "advance", DurS: d("st3")},
+					{Op: "get", Key: k}, {Op: "advance", DurS: d("st4")}, {Op: "get", Key: k},
+				}
+				if verifsim.Chance(t, "stEvict", 40) {
+					// reload from the datastore in between (cache eviction through reads of other keys, or a restart)
+					seq = append(seq[:5:5], append([]pmOp{{Op: "restart"}}, seq[5:]...)...)
+				}
+				pos := rapid.IntRange(0, len(s.Ops)).Draw(t, "stPos")
+				s.Ops = append(s.Ops[:pos:pos], append(seq, s.Ops[pos:]...)...)
+			}
 			return s
 		},
 		Run: func(t *testing.T, s pmSc) verifsim.Result { return runPM(t, s) },
